@@ -91,7 +91,11 @@ def run(ctx):
     rcases = []; rmeta = []
     # small patterns, invalid ones, and patterns whose compiled program is large (counted repetitions of Unicode classes):
     # a cache that compiles differently from the uncached path (limits, flags) shows only on the large ones
-    pats = ['a.', '^x', 'b+', '(a)(b)', '[', 'z$', '.*', 'a|x', '\\w{50}', '\\w{1,48}b?', '\\pL{1,60}', '(?i)[a-z]{2,80}c', '(\\d+|\\w+){1,20}', '(a|b|x){1,30}', '\\p{Greek}*\\w{30}z?', 'a{1001}', '(?x) a b  c']
+    pats = ['a.', '^x', 'b+', '(a)(b)', '[', 'z$', '.*', 'a|x', '\\w{50}', '\\w{1,48}b?', '\\pL{1,60}', '(?i)[a-z]{2,80}c', '(\\d+|\\w+){1,20}', '(a|b|x){1,30}', '\\p{Greek}*\\w{30}z?', 'a{1001}', '(?x) a b  c',
+            # long patterns that agree on a long prefix (or suffix) and differ elsewhere: a cache keyed by a part of the text confuses them (round 13, C13_13)
+            '(?:zz|yy|ww|vv|uu|tt|ss|rr|qq|pp|oo|nn|mm|ll|kk|jj|ii|hh|gg|ff|ee|dd|cc)|abc', '(?:zz|yy|ww|vv|uu|tt|ss|rr|qq|pp|oo|nn|mm|ll|kk|jj|ii|hh|gg|ff|ee|dd|cc)|xbz',
+            'abc|(?:zz|yy|ww|vv|uu|tt|ss|rr|qq|pp|oo|nn|mm|ll|kk|jj|ii|hh|gg|ff|ee|dd|cc)', 'zzz|(?:zz|yy|ww|vv|uu|tt|ss|rr|qq|pp|oo|nn|mm|ll|kk|jj|ii|hh|gg|ff|ee|dd|cc)',
+            '(?:zz|yy|ww|vv|uu|tt|ss|rr|qq|pp|oo|nn|mm|ll|kk|jj|ii|hh|gg|ff|ee|dd|cc)|ab$']
     for i in range(30 if ctx['tier'] == 'quick' else 400):
         hist = [rnd.choice(pats) for _ in range(rnd.choice([2, 5, 12, 40]))]
         recs = [{'s': rnd.choice(['abc', 'xbz', 'ab', 'zzz', '', 'abcdefghijklmnopqrstuvwxyz' * 3, 'éa' * 30]), 'p': p} for p in hist]
